@@ -76,6 +76,11 @@ func runC13(sc C13Script) *c13Result {
 		emu.Unlock()
 	}
 	sut := ws.NewWebsocketConnection(ca, "peer-ski")
+	// the SHIP layer reacts to a reported error by closing the data connection from inside the report
+	rec.OnError = func(error) { sut.CloseDataConnection(4001, "") }
+	if sc.Cause == "localHoldRead" {
+		a.ArmHoldRead(r0 + 1)
+	}
 	sut.InitDataProcessing(rec)
 
 	peerDone := make(chan struct{})
@@ -133,12 +138,28 @@ func runC13(sc C13Script) *c13Result {
 		}
 	}
 	var busy sync.WaitGroup
+	if sc.Cause == "localHoldRead" {
+		// a message is read from the socket completely, but before the pump looks at the result
+		// the connection is closed locally: the message must not be delivered any more
+		peerSend(0)
+		select {
+		case <-a.Holding:
+			sut.CloseDataConnection(4500, "User close")
+			emu.Lock()
+			ended = true
+			emu.Unlock()
+		case <-time.After(time.Second):
+		}
+		a.ReleaseRead()
+		synctest.Wait()
+		total = 0
+	}
 	for i := 0; i < total; i++ {
 		if !sc.Busy {
 			synctest.Wait()
 			markIfReported()
 		}
-		if i == sc.After && sc.Cause != "read" && sc.Cause != "write" && sc.Cause != "none" {
+		if i == sc.After && sc.Cause != "read" && sc.Cause != "write" && sc.Cause != "none" && sc.Cause != "localHoldRead" {
 			if sc.Busy {
 				busy.Add(1)
 				go func() { defer busy.Done(); cause() }()
@@ -161,7 +182,7 @@ func runC13(sc C13Script) *c13Result {
 			peerSend(i - step)
 		}
 	}
-	if sc.After >= total && sc.Cause != "read" && sc.Cause != "write" && sc.Cause != "none" {
+	if sc.After >= total && sc.Cause != "read" && sc.Cause != "write" && sc.Cause != "none" && sc.Cause != "localHoldRead" {
 		synctest.Wait()
 		cause()
 	}
@@ -270,7 +291,7 @@ func judgeC13(t *testing.T, sc C13Script) (key, msg string, res *c13Result) {
 		}
 		return "", "", res
 	}
-	deliberate := sc.Cause == "local" || sc.Cause == "localReason" || sc.Cause == "localReasonWriteFault"
+	deliberate := sc.Cause == "local" || sc.Cause == "localReason" || sc.Cause == "localReasonWriteFault" || sc.Cause == "localHoldRead"
 	what := fmt.Sprintf("cause %s k=%d (session: %d reads, %d writes)", sc.Cause, sc.K, res.Reads, res.Writes)
 	if deliberate {
 		if len(res.Errors) > 0 {
@@ -365,10 +386,10 @@ func TestC13(t *testing.T) {
 			sc.Cause, sc.K = "write", k
 			judge(sc)
 		}
-		for _, c := range []string{"peerClose", "eof", "local", "localReason", "localReasonWriteFault"} {
+		for _, c := range []string{"peerClose", "eof", "local", "localReason", "localReasonWriteFault", "localHoldRead"} {
 			sc := base
 			sc.Cause = c
-			if c == "localReasonWriteFault" {
+			if c == "localReasonWriteFault" || c == "localHoldRead" {
 				// the fault is meant for the close frame itself: no concurrent data write may consume it
 				sc.Busy = false
 			}
